@@ -296,7 +296,7 @@ def run(ctx):
                     continue
                 n11 += 1
                 outer = [y["referencedDecl"]["id"] for part in (raw[0], raw[2]) if isinstance(part, dict) for y in A.walk(part)
-                         if y.get("kind") == "DeclRefExpr" and (y.get("referencedDecl") or {}).get("kind") == "VarDecl" and y["referencedDecl"]["id"] != iv]
+                         if y.get("kind") == "DeclRefExpr" and (y.get("referencedDecl") or {}).get("kind") in ("VarDecl", "ParmVarDecl") and y["referencedDecl"]["id"] != iv]
                 bad11 = []
                 try:
                     for ov in (range(4) if outer else [None]):
